@@ -58,6 +58,9 @@ type C15Case struct {
 	// Clock: how simulated time passes during the live calls of the history
 	// (the reference executions always run under the steady clock).
 	Clock simos.ClockPolicy `json:"clock,omitempty"`
+	// Sched seeds the goroutine scheduler for the live calls (trees with
+	// goroutines only); the reference executions use another schedule.
+	Sched uint64 `json:"schedule_seed,omitempty"`
 	// WarmUp lists histories the process lived through before this one. Only
 	// the comparison of a cold process with a warm one uses it.
 	WarmUp []C15Case `json:"warm_up,omitempty"`
@@ -215,13 +218,44 @@ func (o outcome) String() string {
 	return o.text
 }
 
+// callSched seeds the goroutine scheduler for the next guarded call (trees
+// with goroutines only). Live calls of a history use the schedule of the case,
+// reference calls another one: an output that depends on the interleaving is
+// an output that is not a function of the inputs.
+var callSched uint64
+
 func guardCall(f func() outcome) (o outcome) {
-	defer func() {
-		if r := recover(); r != nil {
-			o = outcome{pan: fmt.Sprint(r)}
+	guarded := func() {
+		defer func() {
+			if r := recover(); r != nil {
+				o = outcome{pan: fmt.Sprint(r)}
+			}
+		}()
+		o = f()
+	}
+	if simos.TreeHasGoroutines && simos.T != nil && !simos.Scheduled() {
+		// most calls start no goroutine: try without the scheduler first
+		simos.ArmTrip(true)
+		guarded()
+		trip := simos.Tripped()
+		simos.ArmTrip(false)
+		if !trip {
+			return o
 		}
-	}()
-	return f()
+		o = outcome{}
+		callSched = mix(callSched, 1)
+		r := simos.RunScheduled(callSched, guarded)
+		harvestSched()
+		switch {
+		case r.Crash != nil:
+			o = outcome{pan: "a goroutine started by the call panicked: " + r.Crash.Value}
+		case r.Deadlock:
+			o = outcome{pan: "the call never returns: all goroutines are blocked (" + strings.Join(lastN(r.Trace, 6), " ") + ")"}
+		}
+		return o
+	}
+	guarded()
+	return o
 }
 
 // exec performs call c on the given values (live or fresh copies) and returns
@@ -525,6 +559,7 @@ func checkC15(c C15Case) (*Violation, []string, *caseInfo) {
 		}
 		st.install()
 		simos.SetClock(c.Clock)
+		callSched = mix(c.Sched, uint64(i))
 		got, produced := execCall(call, c, w.nodes[0].live.(jd.JsonNode), w.nodes[1].live.(jd.JsonNode), liveDiffs, w.sharedOpts)
 		harvestClock()
 		uninstallOrder()
@@ -533,6 +568,7 @@ func checkC15(c C15Case) (*Violation, []string, *caseInfo) {
 		for j, s := range w.diffs {
 			refDiffs[j] = deepCopyAny(s.pristine).(jd.Diff)
 		}
+		callSched = mix(c.Sched, uint64(i), 0x5eed)
 		want, refProduced := execCall(call, c, deepCopyAny(w.nodes[0].pristine).(jd.JsonNode), deepCopyAny(w.nodes[1].pristine).(jd.JsonNode), refDiffs, nil)
 		where := call.Op
 		if call.Op == "Read" && call.T < len(c.Texts) {
@@ -958,6 +994,7 @@ func genCase15(c *Chooser) C15Case {
 		// every deadline is already due when it is set
 		cs.Clock = simos.ClockPolicy{Mode: "expired"}
 	}
+	cs.Sched = c.U64()
 	switch c.Int(4) {
 	case 0:
 		cs.Reorder = 1
